@@ -121,8 +121,9 @@ class Canon:
     * comparison operands are ordered (`a > b` is printed as `b < a`), `!` over comparisons folded.
     """
 
-    def __init__(self, body, inline=True, max_depth=8, force=False, inline_state=False, helpers=False):
+    def __init__(self, body, inline=True, max_depth=8, force=False, inline_state=False, helpers=False, straight=False):
         self.helpers = helpers
+        self.straight = straight      # print a reassigned local as its straight-line value at the use (straight_value)
         """force=True: provenance mode — every let-bound local (also `mut` ones) is replaced by its
         initialiser regardless of size; used to answer "where does this value come from"."""
         self.body = body
@@ -399,6 +400,10 @@ class Canon:
         if d[0] == "param":
             return "$%d%s" % (d[1], d[2])
         stable = not d[3] and n["lid"] not in self.assigned
+        if self.straight and not stable and not n.get("initial") and depth < self.max_depth and n.get("sp"):
+            sv = self.straight_value(n)
+            if sv is not None and sv is not n:
+                return self.c(sv, depth + 1)
         # `let (a, b) = (x, y)` (also through an inlined helper's tail): a is x
         if d[0] == "let" and d[2].startswith("."):
             t = peel(d[1])
@@ -950,6 +955,9 @@ class Index:
                                 txt = pc_ + (" && " + self.cond(prev["guard"]) if prev.get("guard") else "")
                                 out.append({"cond": "!(%s)" % txt, "kind": "arm-prev", "node": anc, "errs": [], "prev_pat": pc_,
                                             "prev_guard": prev.get("guard")})
+            elif k == "LetStmt" and anc.get("els") is not None and (child is anc["els"] or self.contains(anc["els"], child)):
+                # inside the `else` of a let-else: the pattern did not match
+                out.append({"cond": self.let_cond(anc["pat"], anc["init"], False), "kind": "else", "node": anc, "errs": []})
             elif k == "While":
                 if child is anc["body"] or self.contains(anc["body"], child):
                     for cc in self.split_and(anc["cond"]):
